@@ -130,6 +130,21 @@ func (e *Engine) Catalog() *Catalog {
 // started. Unlocked transactions serve as a point in time snapshots and can be
 // just be discarded when not being used further.
 func (e *Engine) Begin(ctx context.Context, lock bool) (*Transaction, error) {
+	// ensure context
+	ctx = ensureContext(ctx)
+
+	// check for a session transaction before taking the engine lock: reading
+	// it takes the session lock, whose holders (commit, abort, end) take the
+	// engine lock, so doing it under the engine lock can deadlock when a
+	// session is shared between goroutines
+	nested := false
+	if lock {
+		sess, ok := ctx.Value(sessionKey{}).(*Session)
+		if ok {
+			nested = sess.Transaction() != nil
+		}
+	}
+
 	// acquire lock
 	e.mutex.Lock()
 	defer e.mutex.Unlock()
@@ -144,22 +159,15 @@ func (e *Engine) Begin(ctx context.Context, lock bool) (*Transaction, error) {
 		return NewTransaction(e.catalog), nil
 	}
 
-	// ensure context
-	ctx = ensureContext(ctx)
-
 	// check for transaction
-	sess, ok := ctx.Value(sessionKey{}).(*Session)
-	if ok {
-		txn := sess.Transaction()
-		if txn != nil {
-			return nil, fmt.Errorf("detected nested transaction")
-		}
+	if nested {
+		return nil, fmt.Errorf("detected nested transaction")
 	}
 
 	// acquire token (without lock); use a tomb-aware context so that a shutdown
 	// unblocks the acquisition
 	e.mutex.Unlock()
-	ok = e.token.Acquire(e.tomb.Context(ctx).Done(), time.Minute)
+	ok := e.token.Acquire(e.tomb.Context(ctx).Done(), time.Minute)
 	e.mutex.Lock()
 	if !ok {
 		if !e.tomb.Alive() {
